@@ -31,10 +31,21 @@ package dialvia
 
 // DialContextR: for every upstream scheme (http and https alike) the reply
 // reader is built over a byteReader.
+// A successful reply to CONNECT has no body whatever its Content-Length or
+// Transfer-Encoding say: the caller's Body.Close() must not consume bytes that
+// already belong to the tunnel (C03: "bytes the upstream proxy sent immediately
+// after its own reply").
+//@ chaninv *http.Response :: v != nil
+//@ func http.ReadResponse
+//@ trusted
+//@ modifies *
+//@ preserves HTTPProxyDialer.* url.URL.*
+//@ ensures result1 == nil ==> result0 != nil
 //@ func (*HTTPProxyDialer).DialContextR
 //@ property C03
 //@ requires d != nil && d.proxyURL != nil && d.dial != nil && ctx != nil
 //@ modifies **
+//@ ensures result0 != nil && result0.StatusCode / 100 == 2 ==> (result0.Body is http.noBody)
 
 // (library and function-value calls of DialContextR: a successful dial yields a
 // connection; wrapping and buffering keep it; the dialer's own fields are not touched)
